@@ -16,7 +16,7 @@ Line protocol of the `multi` engine (the leading token `multi` is stripped by `D
                                → `<class>:<returned 0|1>:<hex of output[..n] when Ok, else ->`
                                  class = ok | insufficient | caterr<code> | finerr<code> | threadexec | otherpanic
                                | `panic` | `hang`
-  runfixed <sp> <t> <cap> <job>…  the same through `compressMultiFixed` (corrections D13 + D18)
+  runv0 <sp> <t> <cap> <job>…     the same through `compressMultiV0` (the code before e1db7f0 / 19df515)
 -/
 namespace BV.Drive.Multi
 open BV.Drive BV.Multi
@@ -92,11 +92,11 @@ def handle (args : List String) : String :=
       if js.length ≠ natArg t then "bad-op" else
       retTok (compressMulti sp (natArg t) (fun i => js.getD i .panic) (natArg cap))
     | _, _ => "bad-op"
-  | "runfixed" :: sp :: t :: cap :: jobs =>
+  | "runv0" :: sp :: t :: cap :: jobs =>
     match parseSpawner sp, allSome (jobs.map parseJob) with
     | some sp, some js =>
       if js.length ≠ natArg t then "bad-op" else
-      retTok (compressMultiFixed sp (natArg t) (fun i => js.getD i .panic) (natArg cap))
+      retTok (compressMultiV0 sp (natArg t) (fun i => js.getD i .panic) (natArg cap))
     | _, _ => "bad-op"
   | _ => "bad-op"
 
